@@ -420,6 +420,22 @@ def assemble_unit(unit_name, unit_dir, cfg, extracted, prelude_files, canary=Fal
                         raise Undecided("assemble", f"{name}: closure {k} of {f_}: header `|..|` not on the line before its body: `{hl.strip()}`")
                     body_lines = [(t, ln) for t, ln in csec.lines if t.strip()]
                     newh = body_lines[0][0].strip()
+                    def _arity(h):
+                        mm = re.search(r'\|([^|]*)\|', h)
+                        inner = mm.group(1).strip() if mm else ""
+                        if not inner:
+                            return 0
+                        depth = 0; n_ = 1
+                        for ch in inner:
+                            if ch in "(<[": depth += 1
+                            elif ch in ")>]": depth -= 1
+                            elif ch == "," and depth == 0: n_ += 1
+                        return n_
+                    if getattr(csec, "optional", False) and _arity(hl[hm.start():hm.end()]) != _arity(newh):
+                        # the closure at this ordinal has another shape than the one the overlay was written for
+                        csec.used = False
+                        idx += 1
+                        continue
                     out[j] = (hl[: hm.start()] + newh, dict(ho, k="closure-header"))
                     last_kw = None
                     for kw, cname, cl in split_clauses(body_lines[1:]):
